@@ -138,6 +138,35 @@ def handle (fields : List String) : String :=
       let baseNames := (core.block ++ core.inline).map (·.1)
       let extra := (c.block ++ c.inline).filter (fun p => !baseNames.contains p.1)
       ";".intercalate (extra.map (fun p => p.1 ++ ":" ++ ",".intercalate (p.2.needs.map toString)))
+  | ["m_block", cfgName, src] =>
+    match Model.findCfg cfgName with
+    | none => "no-cfg"
+    | some cfg =>
+      match Model.blockParse cfg (decStr src) with
+      | .ok (toks, env) => "ok " ++ (Json.arr toks).canon ++ " " ++ env.canon
+      | .error e => "error " ++ (repr e).pretty
+  | ["m_inline", cfgName, refs, src] =>
+    match Model.findCfg cfgName with
+    | none => "no-cfg"
+    | some cfg =>
+      let entries := if refs.isEmpty then [] else (refs.splitOn ";").filterMap (fun e =>
+        match e.splitOn "|" with
+        | [k, u, t, l] =>
+          let data := [("url", Json.str (decStr u)), ("label", Json.str (decStr l))] ++
+            (if t == "-" then [] else [("title", Json.str (decStr t))])
+          some (String.ofList (decStr k), Json.obj data)
+        | _ => none)
+      let env := Json.obj [("ref_links", Json.obj entries)]
+      match Model.inlineParse cfg env (decStr src) with
+      | .ok toks => "ok " ++ (Json.arr toks).canon
+      | .error e => "error " ++ (repr e).pretty
+  | ["m_doc", cfgName, src] =>
+    match Model.findCfg cfgName with
+    | none => "no-cfg"
+    | some cfg =>
+      match Model.parseDoc cfg (decStr src) with
+      | .ok toks => "ok " ++ (Json.arr toks).canon
+      | .error e => "error " ++ (repr e).pretty
   | ["ping"] => "pong"
   | _ => "bad-op"
 
